@@ -57,6 +57,7 @@ type Knobs struct {
 	EOFReadCostMs  int    `json:"eof_read_cost_ms,omitempty"`
 	MaxSteps       int    `json:"max_steps,omitempty"`
 	CtxErrPoints   bool   `json:"ctx_err_points,omitempty"`
+	TargetSite     int    `json:"target_site,omitempty"`
 }
 
 // GenKnobs draws scheduler knobs.
@@ -73,6 +74,11 @@ func GenKnobs(r *Rand) Knobs {
 		k.Strategy = "uniform"
 	}
 	k.CtxErrPoints = r.Pct(50)
+	if len(Sites) > 0 && r.Pct(12) {
+		// targeted preemption: one site of the rewritten library, drawn from the site table
+		k.Strategy, k.StickyP, k.PCTDepth = "target", 0, 0
+		k.TargetSite = 1 + r.Intn(len(Sites))
+	}
 	return k
 }
 
@@ -84,6 +90,7 @@ func (k Knobs) Config(schedSeed uint64) simrt.Config {
 		PCTDepth:       k.PCTDepth,
 		ColdQueueLocks: k.ColdQueueLocks,
 		CtxErrPoints:   k.CtxErrPoints,
+		TargetSite:     k.TargetSite,
 		EOFReadCostMs:  k.EOFReadCostMs,
 		MaxSteps:       k.MaxSteps,
 	}
